@@ -121,6 +121,7 @@ def run(chk):
     chk.rule('R2', 'no non-reentrant libc call on handler paths', 0)
     chk.rule('R3', 'every argument gets the owning handler\'s constraint container', 2)
     chk.rule('R4', 'function-local statics on handler paths do not memoise per-call data', 2)
+    chk.rule('R5', 'independent handlers never enter the process-wide group registry', 5)
     chk.rule('INV', 'static-storage inventory and reachability (bookkeeping obligations)', 3)
     chk.rule('CTL', 'positive control: the effect rule fires on controls/static_write.cpp', 4)
 
@@ -176,6 +177,40 @@ def run(chk):
                           'is served to every later one; reached via %s' % (
                               ', '.join(sorted(set(deps))), ' <- '.join(reversed(call_path(closure, key)[-4:]))))
     chk.ok('INV', '', 'function-local statics on handler paths: %d' % n_static)
+
+    # R5: a handler that is not a member of an argument group never enters the process-wide group registry: every call
+    # of a Groups member from a Handler member is guarded by the membership flag mUsedByGroup (the registry holds
+    # the handlers of OTHER threads: crossCheckArguments() reads all of them without a lock, and an independent
+    # handler would be refused keys that are taken in some unrelated group).  Frozen exceptions, each read in the
+    # source: the explicit output requests listArgGroups() / usage(), which only exist for group use.
+    from ..rules import implied_edges
+    from ..facts import CALL_KINDS
+    EXEMPT = {('listArgGroups', 'listArgGroups'): "argument 'list-arg-groups': output of the registry is what is asked for",
+              ('usage', 'evaluatedByArgGroups'): 'usage(): asks whether a group evaluation is running',
+              ('usage', 'displayUsage'): 'usage(): group usage, only under evaluatedByArgGroups()'}
+    n_reg = 0
+    for f in prog.functions:
+        if f.classq != 'celma::prog_args::Handler' or f.body is None:
+            continue
+        reg = [c for c in f.calls() if (c.get('callee') or '').startswith('celma::prog_args::Groups::') and
+               not (c.get('callee') or '').endswith('::instance')]
+        if not reg:
+            continue
+        member_edges = implied_edges(f, lambda c_: c_.get('k') == 'MemberExpr' and
+                                     c_.get('ref', {}).get('name') == 'mUsedByGroup', True)
+        for c in reg:
+            short = c['callee'].split('::')[-1]
+            n_reg += 1
+            if (f.short, short) in EXEMPT:
+                chk.ok('R5', f.name, '%s() -> Groups::%s(): %s' % (f.short, short, EXEMPT[(f.short, short)]), f.loc(c))
+                continue
+            pos = f.cfg.position(c)
+            guarded = any(f.cfg.guarded_by_edge(pos, a, f.cfg.succ[a].index(b)) for a, b in member_edges
+                          if b in f.cfg.succ[a])
+            chk.check(guarded, 'R5', f.name, 'the group registry is consulted only by handlers that are members of a '
+                      'group (Groups::%s)' % short, f.loc(c), 'the call is not guarded by mUsedByGroup: an independent '
+                      'handler reads the handlers of other threads')
+    chk.require(n_reg >= 5, 'calls from Handler into the group registry: %d' % n_reg)
 
     # R3: setConstraintsContainer gets &mConstraints of the handler itself
     n = 0
